@@ -52,7 +52,7 @@ func zeroMask(b []byte) []byte {
 func TestC11(t *testing.T) {
 	r := NewReporter(t)
 	defer r.Done()
-	r.Rule("full product of directory-name case x nesting x extension case x key placement {none, adjacent, REDKEY, both (different keys), malformed adjacent, malformed REDKEY} x watermark {none, encrypted, decrypted} x file length around 0xF70..0x1070 x {read, write}; every layout read sequentially and positionally across the watermark borders, and again with every underlying Read capped at {1000, 7} (thorough: 2047, 1000, 16, 7, 1) bytes; key files changed between opens on one serving filesystem (all ordered pairs of placements); oracle = decision table written from the statement selecting one of {identity, redump decrypt, 3k3y decrypt+mask, mask}; distinct by layout")
+	r.Rule("full product of directory-name case x nesting x extension case x key placement {none, adjacent, REDKEY, both (different keys), malformed adjacent, malformed REDKEY} x watermark {none, encrypted, decrypted} x file length around 0xF70..0x1070 x {read, write}; every layout read sequentially and positionally across the watermark borders, and again with every underlying Read capped at {1000, 7} (thorough: 2047, 1000, 16, 7, 1) bytes; key files changed between opens on one serving filesystem (all ordered pairs of placements); two connections opening images with different embedded keys / a key file / a plain file concurrently: all schedules with <= 2 preemptions over connection and leaf filesystem operations, each stream equal to the stream of the script run alone; oracle = decision table written from the statement selecting one of {identity, redump decrypt, 3k3y decrypt+mask, mask}; distinct by layout")
 	root := filepath.Join(scratchBase(), sprintf("verifh-c11-%d", os.Getpid()), "root")
 	defer os.RemoveAll(filepath.Dir(root))
 	tables := [][]uint32{{0, 2, 4, 5}, {0, 1, 4, 5}} // sector 3 encrypted / sectors 2-3 encrypted (tail of the 3k3y area is ciphertext on disk)
@@ -100,6 +100,40 @@ func TestC11(t *testing.T) {
 				}
 				_, _ = ai, bi
 				c11KeyChange(r, root, a, b, wm, tables[0], k1, k2, kEmb)
+			}
+		}
+	}
+	// the key decision while other connections open other files at the same time (every open probes for a watermark
+	// and a key): all schedules of two connections up to a preemption bound, each client's stream must equal the
+	// stream of its script run alone (which the layouts above tie to the reference)
+	{
+		w := newWorld(t, "root")
+		defer w.Cleanup()
+		pairs := tables[0]
+		for i, k := range [][]byte{kEmb, k2} {
+			plain := patBytes(byte(41+i), 0, 6*2048)
+			copy(plain, regionTable(pairs))
+			copy(plain[0xF70:], wmEnc)
+			copy(plain[0xF80:], k)
+			w.Data(sprintf("k3/e%d.iso", i), buildEncImage(plain, pairs, k))
+		}
+		rd, _ := mkRedumpImage(6, pairs, k1, 7)
+		w.Data("PS3ISO/r.iso", rd)
+		w.Data("PS3ISO/r.dkey", []byte(hex.EncodeToString(k1)))
+		w.File("plain.bin", 8192, 3)
+		scs := []c12Scenario{
+			{name: "embedded-key-next-to-plain-open", clients: [][]Req{
+				{mkReq(opOpenFile, "/k3/e0.iso"), rdcReq(3*2048-5, 2100), rdReq(0xF60, 300)},
+				{mkReq(opOpenFile, "/plain.bin"), rdReq(0xF00, 600), mkReq(opOpenFile, "/k3/e1.iso"), rdcReq(3*2048, 2048)}}},
+			{name: "embedded-key-next-to-key-file", clients: [][]Req{
+				{mkReq(opOpenFile, "/k3/e1.iso"), rdcReq(3*2048, 2048)},
+				{mkReq(opOpenFile, "/PS3ISO/r.iso"), rdcReq(3*2048-1, 2050), mkReq(opOpenFile, "/k3/e0.iso"), rdReq(3*2048, 100)}}},
+		}
+		bound := 2
+		r.Extra("preemption_bound", bound)
+		for _, sc := range scs {
+			if !c12Explore(t, r, w.Root, sc, bound, "C11") {
+				return
 			}
 		}
 	}
